@@ -154,7 +154,9 @@ def input_variants(m, rng):
             ds, dinfo = getattr(dialects, fmt + "_dataset")(m, rng)
         except Exception:
             continue
-        ds.attrs["user_note"] = "keep me"
+        ds.attrs["user_note"] = "  keep me   "  # blank-padded on purpose
+        for vn in list(ds.data_vars)[:2]:
+            ds[vn].attrs["long_name"] = " padded name  "
         dsin = {"dataset": ds}
         api = ["from_dataset", "open_grid"][int(rng.integers(0, 2))]
         yield (api, {"format": fmt, "container": "dataset", "readonly": False}, (lambda d=dsin, a=api: U.Grid.from_dataset(d["dataset"]) if a == "from_dataset" else U.open_grid(d["dataset"])), dsin)
@@ -394,6 +396,13 @@ def part_export(ctx, case, m, rng):
             continue
         g, fresh = mk(), mk()
         warm = bool(rng.random() < 0.5)
+        chunked = bool(rng.random() < 0.3)
+        if chunked:
+            # dask-backed grid; what is derived afterwards (the warm-up below, the observations) is numpy-backed again
+            g.chunk()
+            fresh.chunk()
+            warm = True
+            ctx.observe("export_of_chunked_grid")
         if warm:
             touch_all(g)
             touch_all(fresh)
@@ -416,8 +425,8 @@ def part_export(ctx, case, m, rng):
         except Exception as e:
             ctx.check("export_independent", False, {"export": nm, "why": "re-export raised", "exc": core.exc_sig(e)}, {"exc": repr(e)[:200], "edits": edits, "mesh": case["mesh"]})
             continue
-        ctx.check("export_independent", after == before, {"export": nm, "what": "grid reports after caller edits", "warm": warm}, {"changed_reports": diff_keys(before, after), "edits": edits, "mesh": case["mesh"]})
-        ctx.check("export_independent", again == ref_digest, {"export": nm, "what": "re-export equals a fresh grid's export", "warm": warm}, {"edits": edits, "changed": _changed(ref_digest, again), "mesh": case["mesh"]})
+        ctx.check("export_independent", after == before, {"export": nm, "what": "grid reports after caller edits", "warm": warm, "chunked": chunked}, {"changed_reports": diff_keys(before, after), "edits": edits, "mesh": case["mesh"]})
+        ctx.check("export_independent", again == ref_digest, {"export": nm, "what": "re-export equals a fresh grid's export", "warm": warm, "chunked": chunked}, {"edits": edits, "changed": _changed(ref_digest, again), "mesh": case["mesh"]})
         ctx.observe("export_" + nm)
     ctx.mark_nontrivial()
 
